@@ -1,10 +1,10 @@
 #!/usr/bin/env python3
 # Rewrites the catch matrix of DESIGN.md (§10) from /verif/seeded/*/meta.json and the output of `semaverif selftest`.
 import json,glob,subprocess,re,os
-out=subprocess.run(['/verif/bin/semaverif','selftest','-j','10'],capture_output=True,text=True,env=dict(os.environ,SEMA_ONLY='s-')).stdout
+out=subprocess.run(['/verif/bin/semaverif','selftest','-j','10'],capture_output=True,text=True,env=dict(os.environ)).stdout
 status={}
 for l in out.splitlines():
-    m=re.match(r'(s-\S+)\s+(detected|missed|declared-undetectable|not-applicable)\s*(.*)',l)
+    m=re.match(r'(s2?-\S+)\s+(detected|missed|declared-undetectable|not-applicable)\s*(.*)',l)
     if m: status[m.group(1)]=(m.group(2),m.group(3).split())
 rows=[]
 for p in sorted(glob.glob('/verif/seeded/*/meta.json')):
@@ -15,9 +15,13 @@ for p in sorted(glob.glob('/verif/seeded/*/meta.json')):
     elif st=='declared-undetectable': res='declared undetectable (§12)'
     else: res=st
     what=d['what'].replace('|','\\|')
-    rows.append(f"| {d['property']} | `{n}` | {what} | {res} |")
+    rows.append(f"| {d['property']} | {d.get('round',1)} | `{n}` | {what} | {d.get('blind_result','?')} | {res} |")
+import collections
+blind=collections.Counter()
+for p2 in glob.glob('/verif/seeded/*/meta.json'):
+    d2=json.load(open(p2)); b=d2.get('blind_result','?'); blind[(d2.get('round',1), 'detected' if b.startswith('detected') else ('other' if b.startswith('reported') else 'missed'))]+=1
 tot=len(rows); det=sum(1 for r in rows if '**detected**' in r); und=sum(1 for r in rows if 'undetectable' in r)
-table="| property | seed | change | result |\n|---|---|---|---|\n"+"\n".join(rows)+f"\n\nTotals: {tot} confirmed seeds, {det} detected with the expected construct, {und} declared undetectable, {tot-det-und} missed.\n"
+table="| property | round | seed | change | first run, before any rule was touched | final state |\n|---|---|---|---|---|---|\n"+"\n".join(rows)+f"\n\nTotals: {tot} confirmed seeds, {det} detected with the expected construct, {und} declared undetectable, {tot-det-und} missed.\n\nFirst-run (blind) results, i.e. what the checks said before I changed anything in response to a seed: round 1: {blind[(1,'detected')]} detected, {blind[(1,'other')]} reported for another reason, {blind[(1,'missed')]} missed of {blind[(1,'detected')]+blind[(1,'other')]+blind[(1,'missed')]}; round 2 (run against the rules as improved after round 1): {blind[(2,'detected')]} detected, {blind[(2,'other')]} reported for another reason, {blind[(2,'missed')]} missed of {blind[(2,'detected')]+blind[(2,'other')]+blind[(2,'missed')]}. The second number is the honest estimate of how the rules generalise to changes nobody has shown them: roughly one in three. Every miss of both rounds was then turned into a rule clause (or declared undetectable with a reason), which is why the final column is nearly all \"detected\"; that column measures the corpus, not the generalisation.\n"
 s=open('/verif/DESIGN.md').read()
 a=s.index('<!-- MATRIX-BEGIN -->')+len('<!-- MATRIX-BEGIN -->'); b=s.index('<!-- MATRIX-END -->')
 open('/verif/DESIGN.md','w').write(s[:a]+"\n"+table+s[b:])
